@@ -151,6 +151,7 @@ def check_parser_feeds(ctx, rule):
 
 def check_parser(ctx, rule):
     parser_semantics(ctx, rule)
+    check_parser_init(ctx, rule)
 
 
 def parser_semantics(ctx, rule):
@@ -247,6 +248,38 @@ def parser_semantics(ctx, rule):
         ctx.require(ok, rule, f'parser-chunking[{label}]', w,
                     f'feeding the stream {label} gives {outs[0].value if len(outs) == 1 and outs[0].kind == "return" else outs!r}; expected the 4 messages {[x[0] for x in want]}',
                     construct=f'{cls.qname}::chunking')
+    # short streams whose LAST byte completes a message (one-byte messages are completed by a status byte, sysex by F7,
+    # the others by a data byte): nothing may stay behind in the tokenizer after the feeding call, whichever entry point is used
+    tails = [('clock', [0xf8], ['clock']), ('tune_request', [0xf6], ['tune_request']),
+             ('note_on then start', [0x93, n1, v1, 0xfa], ['note_on', 'start']),
+             ('sysex then active_sensing', [0xf0, d0, 0xf7, 0xfe], ['sysex', 'active_sensing']),
+             ('program_change', [0xc2, n2], ['program_change']), ('sysex', [0xf0, d0, d1, 0xf7], ['sysex'])]
+    for label, st, types in tails:
+        for how in ('feed', 'bytes', 'ctor'):
+            def thunk():
+                if how == 'ctor':
+                    p = ai.apply(ClassRef(cls), [AList(list(st), 'list')], {}, None)
+                else:
+                    p = ai.apply(ClassRef(cls), [], {}, None)
+                    if how == 'bytes':
+                        for b in st:
+                            call(p, 'feed_byte', b)
+                    else:
+                        call(p, 'feed', AList(list(st), 'list'))
+                n_pending = call(p, 'pending')
+                first = call(p, 'get_message')
+                return n_pending, first, list(ai.iterate(p, None))
+            outs = ai.explore(thunk)
+            ok = len(outs) == 1 and outs[0].kind == 'return'
+            if ok:
+                n_pending, first, rest = outs[0].value
+                got = [x.attrs.get('type') if isinstance(x, AObj) else x for x in [first] + rest]
+                ok = n_pending == len(types) and got == types
+            how_txt = {'feed': 'feed()', 'bytes': 'feed_byte() per byte', 'ctor': 'the constructor'}[how]
+            ctx.require(ok, rule, f'parser-tail[{label}, {how_txt}]', w,
+                        f'after feeding {label} through {how_txt}: pending(), get_message(), rest = '
+                        f'{outs[0].value if len(outs) == 1 and outs[0].kind == "return" else outs!r}; expected {len(types)} pending: {types}',
+                        construct=f'{cls.qname}::tail::{how}')
     m = ctx.p.module(PAR)
     for fname in ('parse_all', 'parse'):
         f = m.functions.get(fname)
@@ -266,28 +299,50 @@ def parser_semantics(ctx, rule):
 
 
 def check_parser_init(ctx, rule):
-    cls = ctx.p.cls(PAR, 'Parser')
-    o, fn = ctx.p.lookup_method(cls, '__init__')
-    ctx.fn(fn)
-    w = ctx.where(fn)
-    stores = {}
-    for t, st in astq.stores_in(fn.node):
-        if isinstance(t, ast.Attribute) and isinstance(t.value, ast.Name) and t.value.id == 'self':
-            stores.setdefault(t.attr, []).append(st)
-    ok = 'messages' in stores and len(stores['messages']) == 1 and unparse(stores['messages'][0].value) in ('deque()', 'collections.deque()')
-    ctx.require(ok, rule, 'Parser.__init__.messages', w, 'self.messages is not initialised to one empty deque()',
-                construct=f'{fn.qname}::messages')
-    ok = '_tok' in stores and len(stores['_tok']) == 1 and unparse(stores['_tok'][0].value) == 'Tokenizer()'
-    ctx.require(ok, rule, 'Parser.__init__._tok', w, 'self._tok is not initialised to one fresh Tokenizer()',
-                construct=f'{fn.qname}::_tok')
-    # data, if given, is fed after both exist
-    feeds = [c for c in astq.calls(fn.node) if unparse(c.func) == 'self.feed']
-    ok = len(feeds) == 1 and len(feeds[0].args) == 1 and isinstance(feeds[0].args[0], ast.Name) and feeds[0].args[0].id == fn.params()[1]
-    if ok:
-        ln = feeds[0].lineno
-        ok = all(s.lineno < ln for v in stores.values() for s in v)
-    ctx.require(ok, rule, 'Parser.__init__.feed', w, 'initial data is not fed exactly once after the fields are set up',
-                construct=f'{fn.qname}::feed')
+    """Parser() and Tokenizer(), built abstractly through their constructors: an empty, unbounded first-in first-out queue each
+    (a deque with maxlen silently drops the oldest entry once full), a fresh tokenizer owned by the parser, idle state."""
+    from .. import smf
+    from ..absint import AList, AObj
+    from ..fold import ClassRef
+    ai = smf.make_interp(ctx)
+    for modname, clsname in ((PAR, 'Parser'), (TOK, 'Tokenizer')):
+        cls = ctx.p.cls(modname, clsname)
+        o, fn = ctx.p.lookup_method(cls, '__init__')
+        ctx.fn(fn)
+        w = ctx.where(fn)
+        outs = ai.explore(lambda: (ai.apply(ClassRef(cls), [], {}, None), ai.apply(ClassRef(cls), [], {}, None)))
+        if len(outs) != 1 or outs[0].kind != 'return':
+            ctx.fail(rule, f'{clsname}()', w, f'construction without data: {outs}', construct=f'{fn.qname}::construct')
+            continue
+        a, b = outs[0].value
+        queues = []
+
+        def walk(o_, path, seen):
+            if id(o_) in seen:
+                return
+            seen.add(id(o_))
+            if isinstance(o_, AList) and o_.kind == 'deque':
+                queues.append((path, o_))
+            elif isinstance(o_, AObj):
+                for k, v in o_.attrs.items():
+                    walk(v, f'{path}.{k}', seen)
+        walk(a, clsname, set())
+        qa = list(queues)
+        queues.clear()
+        walk(b, clsname, set())
+        ctx.require(bool(qa), rule, f'{clsname}().queue', w, 'no deque found in the constructed object', construct=f'{fn.qname}::messages')
+        for (path, q), (_, q2) in zip(qa, queues):
+            ctx.require(not q.items and getattr(q, 'maxlen', None) is None, rule, f'{path}', w,
+                        f'{path} starts as {q!r} with maxlen={getattr(q, "maxlen", None)!r}: a bounded queue silently drops the oldest messages once '
+                        'it is full (the queue is only drained after a whole feed() call)', construct=f'{fn.qname}::messages')
+            ctx.require(q is not q2, rule, f'{path}.fresh', w, 'two instances share one queue object', construct=f'{fn.qname}::shared-queue')
+        if clsname == 'Parser':
+            toks = [v for v in a.attrs.values() if isinstance(v, AObj) and v.cls is not None and v.cls.name == 'Tokenizer']
+            toks_b = [v for v in b.attrs.values() if isinstance(v, AObj) and v.cls is not None and v.cls.name == 'Tokenizer']
+            ctx.require(len(toks) == 1 and len(toks_b) == 1 and toks[0] is not toks_b[0], rule, 'Parser()._tok', w,
+                        'each parser must own one fresh Tokenizer', construct=f'{fn.qname}::_tok')
+    for q in ai.inlined:
+        ctx.functions.add(q)
 
 
 def check_retrieval(ctx, rule):
